@@ -151,6 +151,8 @@ type target struct {
 	free     map[string][]string // callee text -> names of the fields of a struct-literal argument, in the order they are passed:
 	// a call `return callee(args)` is left uninterpreted — the definition is polymorphic in a result type `R`, takes the callee
 	// as a function into `R` and an injection `ret` of ordinary results into `R`
+	ignore   map[string]bool   // variables whose values the translation does not follow (e.g. the text of an error): assignments to
+	// them are dropped, reading them is refused
 	fresh    map[string]bool   // *bytes.Buffer variables that come straight from the pool: `X.Bytes()[:n]` (a slice of the
 	// buffer's spare capacity, whose old contents are unspecified) is n zero bytes — sound where every byte is overwritten
 	// before it is read (the ReadN that follows), as in readMessage
@@ -205,6 +207,10 @@ var targets = []target{
 		oracles: map[string]string{"c.deflater.Decompress(msg.Data, c.dpsWindow.dict)": "inflated"},
 		free:    map[string][]string{"c.readQueue.Go": nil, "c.dispatch": nil},
 		doc:     "emitMessage: inflate (the inflater's result is an input), window update, UTF-8 gate, then dispatch (left uninterpreted)"},
+	{pkg: "gws", fn: "Conn.emitError", lean: "Conn_emitError_status",
+		from: "var sendCode, sendErr =", to: "var reason =", liveOut: []string{"sendCode"},
+		ignore: map[string]bool{"sendErr": true, "err": true},
+		doc:    "the status code emitError puts into the Close frame it sends: 1001 for a write-side error, for a read-side error the status code itself, the code of an *internal.Error, or 1000 (the error TEXT behind the code is not followed)"},
 	{pkg: "gws", fn: "Conn.emitClose", lean: "Conn_emitClose_body",
 		from: "var responseCode =", to: "if atomic.CompareAndSwapUint32", liveOut: []string{"responseCode", "realCode"},
 		doc: "everything emitClose computes from the body of a received Close frame (status reported, reason left in buf, status answered) before the closed-flag CAS"},
@@ -420,6 +426,8 @@ type fn struct {
 	segment  bool
 	noReturn bool
 	locals   map[string]bool
+	stale    map[string]bool // ignored variables that have been assigned (their value is unknown from then on)
+	tsBind   string          // inside a type-switch clause: which GoErr constructor the bound variable is the payload of
 	freeCont map[string]bool // free callee parameters that take the continuation
 	structTy map[string]string
 	freeSig  map[string][]string // free callee parameter -> argument types
@@ -621,6 +629,9 @@ func (f *fn) expr(e ast.Expr) string {
 		if f.alias[v.Name] != "" {
 			return f.alias[v.Name]
 		}
+		if f.t.ignore[v.Name] && (f.stale[v.Name] || !f.isInput(v)) {
+			f.bad(e, "the value of an ignored variable is read after it was assigned")
+		}
 		if obj, ok := f.p.info.Uses[v].(*types.Var); ok {
 			if obj.Parent() == f.p.pkg.Scope() { // a package-level variable
 				if obj.Type().String() == "error" {
@@ -640,6 +651,11 @@ func (f *fn) expr(e ast.Expr) string {
 		}
 		f.bad(e, "identifier")
 	case *ast.SelectorExpr:
+		if id, ok := v.X.(*ast.Ident); ok && f.tsBind == "coded" && v.Sel.Name == "Code" && f.locals[id.Name] {
+			if _, isVar := f.p.info.Uses[id].(*types.Var); isVar && strings.HasSuffix(f.typeOf(v.X).String(), "internal.Error") {
+				return leanIdent(id.Name) + "_Code"
+			}
+		}
 		if path, ok := f.pathOf(v); ok {
 			return f.usePath(path, tv.Type, e)
 		}
@@ -723,6 +739,12 @@ func (f *fn) noteInput(v *ast.Ident, obj *types.Var) {
 		f.oracleSet[v.Name] = lt
 		f.oracleOrd = append(f.oracleOrd, v.Name)
 	}
+}
+
+// isInput: the identifier names a parameter or (in a segment) a variable defined before the segment
+func (f *fn) isInput(v *ast.Ident) bool {
+	obj, ok := f.p.info.Uses[v].(*types.Var)
+	return ok && (f.isParam(obj) || (f.segment && !f.locals[v.Name]))
 }
 
 func (f *fn) isParam(obj *types.Var) bool {
@@ -1214,7 +1236,7 @@ func (f *fn) assigned(n ast.Node) []string {
 		case *ast.StarExpr:
 			note(v.X)
 		case *ast.Ident:
-			if v.Name != "_" && (!declared[v.Name] || f.alias[v.Name] != "") {
+			if v.Name != "_" && !f.t.ignore[v.Name] && (!declared[v.Name] || f.alias[v.Name] != "") {
 				set[f.lvalueName(v)] = true
 			}
 		case *ast.SelectorExpr:
@@ -1448,6 +1470,9 @@ func (f *fn) block(list []ast.Stmt, k cont) string {
 			vs := sp.(*ast.ValueSpec)
 			for i, id := range vs.Names {
 				f.locals[id.Name] = true
+				if f.t.ignore[id.Name] {
+					continue
+				}
 				var val string
 				obj := f.p.info.Defs[id].(*types.Var)
 				if i < len(vs.Values) {
@@ -1521,6 +1546,11 @@ func (f *fn) block(list []ast.Stmt, k cont) string {
 		var vals []string
 		for i := range st.Rhs {
 			var val string
+			if id, ok := st.Lhs[i].(*ast.Ident); ok && f.t.ignore[id.Name] {
+				vals = append(vals, "")
+				f.stale[id.Name] = true
+				continue
+			}
 			switch st.Tok {
 			case token.ASSIGN, token.DEFINE:
 				if id, ok := st.Rhs[i].(*ast.Ident); ok && id.Name == "nil" && f.lt(st.Lhs[i]) == "(List UInt8)" {
@@ -1548,7 +1578,7 @@ func (f *fn) block(list []ast.Stmt, k cont) string {
 		}
 		f.flush(&sb)
 		for i, l := range st.Lhs {
-			if id, ok := l.(*ast.Ident); ok && id.Name == "_" {
+			if id, ok := l.(*ast.Ident); ok && (id.Name == "_" || f.t.ignore[id.Name]) {
 				continue
 			}
 			sb.WriteString(f.assignTo(l, vals[i]) + "\n")
@@ -1647,6 +1677,70 @@ func (f *fn) block(list []ast.Stmt, k cont) string {
 		return f.ifStmt(st, next)
 	case *ast.SwitchStmt:
 		return f.block([]ast.Stmt{f.desugarSwitch(st)}, next)
+	case *ast.TypeSwitchStmt:
+		// `switch v := err.(type) { case internal.StatusCode: …; case *internal.Error: …; default: … }` on an error value:
+		// a match on the constructors of GoErr (status code / *Error with its code / anything else)
+		as, ok := st.Assign.(*ast.AssignStmt)
+		if !ok || len(as.Lhs) != 1 || len(as.Rhs) != 1 {
+			f.bad(s, "type switch form")
+		}
+		vname := as.Lhs[0].(*ast.Ident).Name
+		ta := as.Rhs[0].(*ast.TypeAssertExpr)
+		if f.lt(ta.X) != "(Option GoErr)" {
+			f.bad(s, "type switch on something that is not an error")
+		}
+		scrut := f.expr(ta.X)
+		f.flush(&sb)
+		hasRet := hasReturn(st.Body)
+		vars := f.assigned(st.Body)
+		if !hasRet && len(vars) == 0 {
+			f.bad(s, "type switch without effect")
+		}
+		t := tuple(vars)
+		k := next
+		if !hasRet {
+			k = func() string { return t }
+		}
+		var arms []string
+		haveDefault := false
+		for _, cl := range st.Body.List {
+			cc := cl.(*ast.CaseClause)
+			f.locals[vname] = true
+			body := func(bind string) string {
+				// inside the clause `v` is the payload of the constructor; `v.Code` of an *Error is that payload too
+				return f.block(cc.Body, k)
+			}
+			if cc.List == nil {
+				haveDefault = true
+				f.tsBind = ""
+				arms = append(arms, "| _ =>\n"+indent(body("")))
+				continue
+			}
+			if len(cc.List) != 1 {
+				f.bad(s, "type switch clause with several types")
+			}
+			tn := strings.Join(strings.Fields(f.src(cc.List[0])), "")
+			switch tn {
+			case "internal.StatusCode", "StatusCode":
+				f.tsBind = "status"
+				arms = append(arms, fmt.Sprintf("| some (GoErr.status %s) =>\n", leanIdent(vname))+indent(body("status")))
+			case "*internal.Error", "*Error":
+				f.tsBind = "coded"
+				arms = append(arms, fmt.Sprintf("| some (GoErr.coded %s_Code) =>\n", leanIdent(vname))+indent(body("coded")))
+			default:
+				f.bad(s, "type switch clause "+tn)
+			}
+		}
+		f.tsBind = ""
+		if !haveDefault {
+			arms = append(arms, "| _ =>\n"+indent(k()))
+		}
+		if hasRet {
+			fmt.Fprintf(&sb, "match %s with\n%s", scrut, strings.Join(arms, "\n"))
+			return sb.String()
+		}
+		fmt.Fprintf(&sb, "let %s := match %s with\n%s\n", t, scrut, indent(strings.Join(arms, "\n")))
+		return sb.String() + next()
 	case *ast.RangeStmt:
 		// `for _, x := range L { body }` where the body only returns early (assigns nothing outside): the first iteration
 		// that returns decides, otherwise what follows the loop — a right fold with the rest of the function as its seed
@@ -2118,7 +2212,7 @@ func (tr *translator) translate(key string) *result {
 	if !ok {
 		fail("function %s.%s not found", t.pkg, t.fn)
 	}
-	f := &fn{tr: tr, p: p, decl: decl, t: t, pathSet: map[string]string{}, oracleSet: map[string]string{}, state: map[string]bool{}, locals: map[string]bool{}, alias: map[string]string{}, streams: map[string]bool{}, structs: map[string][]string{}, freeSig: map[string][]string{}, structTy: map[string]string{}, freeCont: map[string]bool{}}
+	f := &fn{tr: tr, p: p, decl: decl, t: t, pathSet: map[string]string{}, oracleSet: map[string]string{}, state: map[string]bool{}, locals: map[string]bool{}, alias: map[string]string{}, streams: map[string]bool{}, structs: map[string][]string{}, freeSig: map[string][]string{}, structTy: map[string]string{}, freeCont: map[string]bool{}, stale: map[string]bool{}}
 	if decl.Recv != nil && len(decl.Recv.List) == 1 && len(decl.Recv.List[0].Names) == 1 {
 		f.recv, _ = p.info.Defs[decl.Recv.List[0].Names[0]].(*types.Var)
 	}
@@ -2222,6 +2316,7 @@ func (tr *translator) translate(key string) *result {
 	}
 	_ = f.block(stmts, end)
 	f.pre, f.tmp = nil, 0
+	f.stale = map[string]bool{}
 	saveLocals := map[string]bool{}
 	for k, v := range f.locals {
 		saveLocals[k] = v
